@@ -69,7 +69,7 @@ def split_replays(out):
     return res
 
 
-def run_shim_tests(rust_src, module='ip_generator.rs', test_filter='mirx_replay', timeout=1200, modname='mirx_replay_mod'):
+def run_shim_tests(rust_src, module='ip_generator.rs', test_filter='mirx_replay', timeout=1200, modname='mirx_replay_mod', extra_modules=()):
     """like run_tests but for a file of the `elvis` crate compiled through the shim crate (see loader.load_shim)"""
     scratch = os.path.join(os.environ.get('VERIF_SCRATCH', '/tmp/elvis-verif'), f'native-shim-{os.getpid()}-{int(time.time() * 1000) % 100000}')
     shutil.rmtree(scratch, ignore_errors=True)
@@ -92,6 +92,10 @@ def run_shim_tests(rust_src, module='ip_generator.rs', test_filter='mirx_replay'
             f.write(f'\n#[cfg(test)] #[path = "{mpath}"] mod {modname};\n')
         with open(os.path.join(d, 'src', 'lib.rs'), 'w') as f:
             f.write(f'#![allow(unused, dead_code)]\npub mod {os.path.splitext(base)[0]};\n')
+            for em in extra_modules:
+                eb = os.path.basename(em)
+                shutil.copy(os.path.join(REPO, 'sim', 'elvis', 'src', em), os.path.join(d, 'src', eb))
+                f.write(f'pub mod {os.path.splitext(eb)[0]};\n')
         shutil.copy(os.path.join(REPO, 'sim', 'Cargo.lock'), os.path.join(d, 'Cargo.lock'))
         env = dict(os.environ)
         env['CARGO_NET_OFFLINE'] = 'true'
